@@ -46,6 +46,10 @@ type valCase struct {
 	// Siblings: 1 or 2 = the variable is declared (through the Ptr entry points) by two sub commands that share it, the addressed
 	// one being declared first (1) or second (2); the other one has another default and the environment variable VERIF_SIBLING_ENV
 	Siblings int        `json:"siblings"`
+	// Pair (multi-valued built-in types): a second option -p/--pair of the same type is declared with the SAME default slice
+	// ("shared": the case's default; "sharedcap": an empty slice with spare capacity)
+	Pair    string      `json:"pair"`
+	ExtraEnv bool       `json:"extraenv"` // the plain bool option -x is backed by an environment variable that is set
 	Conv    bool        `json:"conv"`      // declare through the convenience methods (BoolOpt(name, value, desc), ...Ptr): no env, no SetByUser
 }
 
@@ -54,6 +58,7 @@ type valResult struct {
 	Err     string   `json:"err,omitempty"`
 	Panic   string   `json:"panic,omitempty"`
 	ValueHex []string `json:"value_hex,omitempty"` // string types with ArgvHex: the bytes of every value
+	Value2  []string `json:"value2,omitempty"` // Pair: the second variable
 	Value   []string `json:"value"`   // canonical rendering of the variable inside the Action (or after Run when it did not run)
 	SBU     bool     `json:"sbu"`     // SetByUser inside the Action
 	EnvLog  []string `json:"envlog"`  // custom types: calls at declaration time
@@ -242,6 +247,7 @@ func runValues(c valCase) (r valResult) {
 	var sbu bool
 	var log []string
 	var read func() []string
+	var read2 func() []string
 
 	app := cli.App("app", "")
 	app.ErrorHandling = flag.ContinueOnError
@@ -351,6 +357,13 @@ func runValues(c valCase) (r valResult) {
 		read = func() []string { return []string{canonFloat(*p)} }
 	case c.Type == "strings":
 		d := toStrings(c.Default)
+		if c.Pair == "sharedcap" {
+			d = make([]string, 0, 8)
+		}
+		if c.Pair != "" {
+			q := app.Strings(cli.StringsOpt{Name: "p pair", Value: d})
+			read2 = func() []string { return append([]string{}, (*q)...) }
+		}
 		var p *[]string
 		if opt {
 			x := cli.StringsOpt{Name: "o opt", Value: d, EnvVar: envList, SetByUser: &sbu}
@@ -375,6 +388,19 @@ func runValues(c valCase) (r valResult) {
 		for _, s := range toStrings(c.Default) {
 			i, _ := strconv.Atoi(s)
 			d = append(d, i)
+		}
+		if c.Pair == "sharedcap" {
+			d = make([]int, 0, 8)
+		}
+		if c.Pair != "" {
+			q := app.Ints(cli.IntsOpt{Name: "p pair", Value: d})
+			read2 = func() []string {
+				res := []string{}
+				for _, i := range *q {
+					res = append(res, strconv.Itoa(i))
+				}
+				return res
+			}
 		}
 		var p *[]int
 		if opt {
@@ -406,6 +432,19 @@ func runValues(c valCase) (r valResult) {
 		for _, s := range toStrings(c.Default) {
 			f, _ := strconv.ParseFloat(s, 64)
 			d = append(d, f)
+		}
+		if c.Pair == "sharedcap" {
+			d = make([]float64, 0, 8)
+		}
+		if c.Pair != "" {
+			q := app.Floats64(cli.Floats64Opt{Name: "p pair", Value: d})
+			read2 = func() []string {
+				res := []string{}
+				for _, f := range *q {
+					res = append(res, canonFloat(f))
+				}
+				return res
+			}
 		}
 		var p *[]float64
 		if opt {
@@ -445,7 +484,13 @@ func runValues(c valCase) (r valResult) {
 		return
 	}
 	if c.Extra {
-		app.Bool(cli.BoolOpt{Name: "x extra"})
+		if c.ExtraEnv {
+			os.Setenv("VERIF_X_ENV", "true")
+			defer os.Unsetenv("VERIF_X_ENV")
+			app.Bool(cli.BoolOpt{Name: "x extra", EnvVar: "VERIF_X_ENV"})
+		} else {
+			app.Bool(cli.BoolOpt{Name: "x extra"})
+		}
 	}
 	r.EnvLog = append(r.EnvLog, log...)
 	log = nil
@@ -453,6 +498,9 @@ func runValues(c valCase) (r valResult) {
 		r.Ran = true
 		r.SBU = sbu
 		r.Value = read()
+		if read2 != nil {
+			r.Value2 = read2()
+		}
 	}
 	argv := c.Argv
 	if len(c.ArgvHex) > 0 {
